@@ -492,11 +492,11 @@ pub fn generate(tape: &[u16]) -> Case {
         ty = Ty::Bool;
     }
     let (mode, mut arms): (&'static str, Vec<Pat>) = match mode_pick {
-        0..=2 => {
+        0..=3 => {
             let n = 1 + g.t.pick(7);
             ("random", (0..n).map(|_| g.gen_pat(&ty, 0, true)).collect())
         }
-        3..=4 => {
+        4 => {
             let n = 1 + g.t.pick(6);
             let mut a: Vec<Pat> = (0..n).map(|_| g.gen_pat(&ty, 0, true)).collect();
             a.push(g.wild_or_bind(true));
@@ -510,7 +510,7 @@ pub fn generate(tape: &[u16]) -> Case {
             arms.push(Pat::Wild);
         }
         // perturbations
-        if arms.len() >= 2 && g.t.chance(30) {
+        if arms.len() >= 2 && g.t.chance(40) {
             let k = g.t.pick(arms.len());
             arms.remove(k);
         }
@@ -539,7 +539,7 @@ pub fn generate(tape: &[u16]) -> Case {
             }
         }
         // drop one alternative of an or-pattern (a single missing literal)
-        if g.t.chance(20) {
+        if g.t.chance(30) {
             let k = g.t.pick(arms.len());
             drop_one_alternative(&mut arms[k], g.t.next());
         }
